@@ -32,7 +32,8 @@ Proof. exact literal_continuation. Qed.
 Print Assumptions C04_literal_continuation.
 
 Theorem C04_refused_nonsync_closes : forall cfg f total s tag r1 r2 name r3,
-  dec_atom s = DOk tag r1 -> dec_sp r1 = DOk tt r2 -> dec_atom r2 = DOk name r3 ->
+  dec_atom s = DOk tag r1 -> has_plus tag = false ->
+  dec_sp r1 = DOk tt r2 -> dec_atom r2 = DOk name r3 ->
   bytes_eqb (ascii_upper name) (s2b "UID") = false ->
   let h := handle_cmd cfg (fs_conn f) name r3 in
   (h_close h = true \/ (snd (discard_line (h_crlf h) (h_rest h)) = true /\ h_cls h <> 0)) ->
@@ -40,6 +41,25 @@ Theorem C04_refused_nonsync_closes : forall cfg f total s tag r1 r2 name r3,
   exists outs, fs_out (fst (read_command cfg f total s)) = OBye :: outs.
 Proof. exact refused_nonsync_closes. Qed.
 Print Assumptions C04_refused_nonsync_closes.
+
+(* a tag containing "+" (whose tagged response would read as a continuation request) ends the
+   connection without any response, whatever follows it *)
+Theorem C04_plus_tag_ends_silently : forall cfg f total s tag r1 r2 name r3,
+  dec_atom s = DOk tag r1 -> has_plus tag = true ->
+  dec_sp r1 = DOk tt r2 -> dec_atom r2 = DOk name r3 ->
+  snd (read_command cfg f total s) = None /\
+  fs_out (fst (read_command cfg f total s)) = fs_out f /\
+  fs_calls (fst (read_command cfg f total s)) = fs_calls f.
+Proof. exact plus_tag_ends_silently. Qed.
+Print Assumptions C04_plus_tag_ends_silently.
+
+(* a literal header whose size is not a readable number (it overflows int64) and whose line ends
+   with "+}" announces octets that cannot be skipped: the error closes the connection *)
+Theorem C04_unreadable_nonsync_size_closes : forall s r r',
+  dec_special (ch "{") s = DOk tt r -> dec_number64 r = DNo r' -> partial_header_nonsync r' = true ->
+  lit_header s = SErr (io_or_syntax r') true O r'.
+Proof. exact unreadable_nonsync_size_closes. Qed.
+Print Assumptions C04_unreadable_nonsync_size_closes.
 
 (* non-vacuity: payloads full of command-like text, a refused synchronising literal, and a
    refused non-synchronising literal that ends the connection before A6 *)
